@@ -44,6 +44,8 @@ const LOCA: Tag = Tag::new(b"loca");
 const HEAD: Tag = Tag::new(b"head");
 const MAXP: Tag = Tag::new(b"maxp");
 const GVAR: Tag = Tag::new(b"gvar");
+const CFF: Tag = Tag::new(b"CFF ");
+const CFF2: Tag = Tag::new(b"CFF2");
 
 // ---------------------------------------------------------------- fault-injecting decoder
 struct FaultDecoder {
@@ -174,6 +176,10 @@ fn base32hex(id: u32) -> String {
 /// format-2 patch map with `encs.len()` entries, every entry intersecting codepoint 5.
 /// `encs[i]` = Some(e): per-entry patch format override.
 fn ift_table(tbl: u8, compat: [u8; 16], default_enc: u8, prefix: &str, encs: &[Option<u8>]) -> (Vec<u8>, Vec<Entry>) {
+    ift_table_cs(tbl, compat, default_enc, prefix, encs, None, None)
+}
+/// same with the optional CFF / CFF2 charstrings offset fields
+fn ift_table_cs(tbl: u8, compat: [u8; 16], default_enc: u8, prefix: &str, encs: &[Option<u8>], cff: Option<u32>, cff2: Option<u32>) -> (Vec<u8>, Vec<Entry>) {
     let mut v = vec![2u8];
     be32(&mut v, 0);
     v.extend_from_slice(&compat);
@@ -185,6 +191,13 @@ fn ift_table(tbl: u8, compat: [u8; 16], default_enc: u8, prefix: &str, encs: &[O
     let template = format!("{}/{{id}}", prefix);
     be16(&mut v, template.len() as u32);
     v.extend_from_slice(template.as_bytes());
+    v[4] = cff.is_some() as u8 | (cff2.is_some() as u8) << 1;
+    if let Some(o) = cff {
+        be32(&mut v, o);
+    }
+    if let Some(o) = cff2 {
+        be32(&mut v, o);
+    }
     let start = v.len() as u32;
     v[eo..eo + 4].copy_from_slice(&start.to_be_bytes());
     let mut out = vec![];
@@ -281,6 +294,34 @@ fn random_gvar(rng: &mut Rng, ng: usize) -> Vec<u8> {
     let stc = *rng.pick(&[0u16, 0, 1, 2]);
     let data_first = rng.chance(1, 4);
     gvar_table(long, 2, stc, &glyphs, data_first, if rng.chance(1, 4) { 0x0100 } else { 0 })
+}
+/// minimal CFF (cff2 = false) or CFF2 table whose last part is the charstrings INDEX; returns (table, charstrings offset)
+fn cff_table(cff2: bool, off_size: u8, glyphs: &[Vec<u8>]) -> (Vec<u8>, u32) {
+    let mut v: Vec<u8> = if cff2 {
+        // header (major 2, minor 0, headerSize 5, topDictLength 3), top dict, empty global subrs INDEX (u32 count)
+        vec![2, 0, 5, 0, 3, 0x8b, 0x8b, 0x11, 0, 0, 0, 0]
+    } else {
+        // header, name INDEX ["A"], top dict INDEX [2 bytes], empty string INDEX, empty global subrs INDEX
+        vec![1, 0, 4, 1, 0, 1, 1, 1, 2, b'A', 0, 1, 1, 1, 3, 0x8b, 0x11, 0, 0, 0, 0]
+    };
+    let cs = v.len() as u32;
+    if cff2 {
+        be32(&mut v, glyphs.len() as u32)
+    } else {
+        be16(&mut v, glyphs.len() as u32)
+    }
+    v.push(off_size);
+    let mut o = 1u32;
+    let put = |v: &mut Vec<u8>, o: u32| v.extend_from_slice(&o.to_be_bytes()[4 - off_size.clamp(1, 4) as usize..]);
+    for g in glyphs {
+        put(&mut v, o);
+        o += g.len() as u32;
+    }
+    put(&mut v, o);
+    for g in glyphs {
+        v.extend_from_slice(g);
+    }
+    (v, cs)
 }
 fn build_font(spec: &FontSpec) -> Vec<u8> {
     let mut fb = FontBuilder::new();
@@ -516,16 +557,50 @@ fn emit_case(cx: &mut Ctx, font: &[u8], st_before: &St, fail_at: Option<usize>, 
 // ---------------------------------------------------------------- oracle pieces (implementation only)
 fn fail(cx: &mut Ctx, what: &str, label: &str, term: &str, extra: serde_json::Value) {
     // keys are CLASS keys (seed / tier independent); the concrete input goes into `instance` and `case`
-    let key = if what == "F-C18-1" {
+    let key = if what == "F-C18-4" {
+        // see notes/C18.md F-C18-4
+        "F-C18-4-offset-width-not-narrowed-after-shrinking-patch".to_string()
+    } else if what == "F-C18-1" {
         // known defect of /repo (see notes/C18.md F-C18-1)
         "F-C18-1-gvar-without-variation-data-rejected".to_string()
     } else if label == "threshold.gvar" && what == "valid-patches-rejected" && extra["err"] == "(3, 4)" {
         "F-C18-2-gvar-widening-out-of-room".to_string()
+    } else if label.starts_with("cff.malformed") && what == "offsets-not-ascending" {
+        // see notes/C18.md F-C18-3: CFFAndCharStrings::all_offsets_are_ascending never looks at the last offset
+        "F-C18-3-cff-charstrings-last-offset-unchecked".to_string()
     } else {
         format!("{}:{}", label, what)
     };
     cx.st.oracle_failure(json!({"key": key, "what": what, "label": label, "extra": extra,
         "instance": format!("{:016x}", fnv(term.as_bytes())), "case": &term[..term.len().min(1500)]}));
+}
+/// (ii) of finding F-C18-4: some patch replaces a glyph of table `tt` by data SHORTER than what the base holds
+fn has_shrinking_patch(b: &BTreeMap<Tag, Vec<u8>>, contents: &[GkContent], tt: Tag) -> bool {
+    let Some(a) = offset_array(b, tt) else { return false };
+    contents.iter().any(|c| {
+        let Some(ti) = c.tables.iter().position(|t| *t == tt) else { return false };
+        c.gids.iter().enumerate().any(|(gi, g)| a.slice(*g as usize).map(|s| c.data[ti][gi].len() < s.len()).unwrap_or(false))
+    })
+}
+/// the tables in which two results differ only by the offset width (same logical offsets, data, prefix, shared tuples)
+fn width_only_difference(t: &BTreeMap<Tag, Vec<u8>>, t0: &BTreeMap<Tag, Vec<u8>>) -> Option<Vec<Tag>> {
+    if t.len() != t0.len() {
+        return None;
+    }
+    let mut tags = vec![];
+    for (tag, d) in t {
+        if t0.get(tag) == Some(d) {
+            continue;
+        }
+        if ![CFF, CFF2, GVAR].contains(tag) {
+            return None;
+        }
+        match (offset_array(t, *tag), offset_array(t0, *tag)) {
+            (Some(a), Some(b)) if a.offs == b.offs && a.data == b.data && a.shared == b.shared && a.prefix == b.prefix && (a.width != b.width || a.short != b.short) => tags.push(*tag),
+            _ => return None,
+        }
+    }
+    Some(tags)
 }
 /// F-C18-1: the patched gvar would contain no glyph variation data at all
 fn gvar_result_empty(b: &BTreeMap<Tag, Vec<u8>>, applied: &[(Entry, GkContent)]) -> bool {
@@ -611,8 +686,10 @@ fn oracle_glyph_keyed(cx: &mut Ctx, base: &[u8], out: &CallOut, applied: &[(Entr
             let n = tabmap(n);
             let touches_glyf = applied.iter().any(|(_, c)| c.tables.contains(&GLYF));
             let touches_gvar = applied.iter().any(|(_, c)| c.tables.contains(&GVAR));
+            let touches = |tt: Tag| applied.iter().any(|(_, c)| c.tables.contains(&tt));
             for (t, d) in &b {
-                let special = *t == IFT || *t == IFTX || (touches_glyf && (*t == GLYF || *t == LOCA)) || (touches_gvar && *t == GVAR);
+                let special = *t == IFT || *t == IFTX || (touches_glyf && (*t == GLYF || *t == LOCA)) || (touches_gvar && *t == GVAR)
+                    || (touches(CFF) && *t == CFF) || (touches(CFF2) && *t == CFF2);
                 if !special && n.get(t) != Some(d) {
                     fail(cx, "other-table-changed", label, term, json!({"tag": t.to_string()}));
                 }
@@ -635,7 +712,7 @@ fn oracle_glyph_keyed(cx: &mut Ctx, base: &[u8], out: &CallOut, applied: &[(Entr
                 }
             }
             let ng = u16::from_be_bytes([b[&MAXP][4], b[&MAXP][5]]) as usize;
-            for tt in [GLYF, GVAR] {
+            for tt in [GLYF, GVAR, CFF, CFF2] {
                 if !applied.iter().any(|(_, c)| c.tables.contains(&tt)) {
                     continue;
                 }
@@ -677,6 +754,18 @@ fn oracle_glyph_keyed(cx: &mut Ctx, base: &[u8], out: &CallOut, applied: &[(Entr
                 if ba.short != na.short && !(ba.short && total > 131070) {
                     fail(cx, "offset-type-changed-without-need", label, term, json!({"tag": tt.to_string(), "total": total}));
                 }
+                if tt == CFF || tt == CFF2 {
+                    // offSize: unchanged while the data fits, else the smallest size that represents it
+                    let cap = |w: usize| (1usize << (8 * w)) - 2;
+                    let total: usize = na.data.len();
+                    let exp_w = if total <= cap(ba.width) { ba.width } else { (1..=4).find(|w| total <= cap(*w)).unwrap_or(9) };
+                    if na.width != exp_w {
+                        fail(cx, "cff-offsize-wrong", label, term, json!({"tag": tt.to_string(), "old": ba.width, "new": na.width, "total": total}));
+                    }
+                    if na.prefix != ba.prefix {
+                        fail(cx, "cff-prefix-changed", label, term, json!({"tag": tt.to_string()}));
+                    }
+                }
                 if tt == GVAR {
                     let (bg, ngv) = (&b[&GVAR], &n[&GVAR]);
                     // header fields other than the two offsets and the long-offsets flag; shared tuples
@@ -696,6 +785,9 @@ struct OffArr {
     data: Vec<u8>,
     short: bool,
     shared: Vec<u8>,
+    /// CFF/CFF2: offSize and everything before the charstrings INDEX
+    width: usize,
+    prefix: Vec<u8>,
 }
 impl OffArr {
     fn slice(&self, g: usize) -> Option<&[u8]> {
@@ -706,7 +798,40 @@ impl OffArr {
 fn offset_array(t: &BTreeMap<Tag, Vec<u8>>, tt: Tag) -> Option<OffArr> {
     if tt == GLYF {
         let offs = loca_offsets(t)?;
-        Some(OffArr { offs, data: t.get(&GLYF)?.clone(), short: *t.get(&HEAD)?.get(51)? == 0, shared: vec![] })
+        Some(OffArr { offs, data: t.get(&GLYF)?.clone(), short: *t.get(&HEAD)?.get(51)? == 0, shared: vec![], width: 0, prefix: vec![] })
+    } else if tt == CFF || tt == CFF2 {
+        let ift = t.get(&IFT)?;
+        let tl = u16::from_be_bytes([*ift.get(33)?, *ift.get(34)?]) as usize;
+        let flags = *ift.get(4)?;
+        let mut p = 35 + tl;
+        if tt == CFF2 {
+            if flags & 2 == 0 {
+                return None;
+            }
+            if flags & 1 != 0 {
+                p += 4;
+            }
+        } else if flags & 1 == 0 {
+            return None;
+        }
+        let cs = u32::from_be_bytes([*ift.get(p)?, *ift.get(p + 1)?, *ift.get(p + 2)?, *ift.get(p + 3)?]) as usize;
+        let tb = t.get(&tt)?;
+        let c = tb.get(cs..)?;
+        let cw = if tt == CFF2 { 4 } else { 2 };
+        let mut count = 0usize;
+        for i in 0..cw {
+            count = count << 8 | *c.get(i)? as usize;
+        }
+        let w = *c.get(cw)? as usize;
+        let mut offs = vec![];
+        for i in 0..=count {
+            let mut o = 0u32;
+            for k in 0..w {
+                o = o << 8 | *c.get(cw + 1 + i * w + k)? as u32;
+            }
+            offs.push(o.checked_sub(1)?);
+        }
+        Some(OffArr { offs, data: c.get(cw + 1 + (count + 1) * w..)?.to_vec(), short: false, shared: vec![], width: w, prefix: tb[..cs].to_vec() })
     } else {
         let g = t.get(&GVAR)?;
         if g.len() < 20 {
@@ -720,7 +845,7 @@ fn offset_array(t: &BTreeMap<Tag, Vec<u8>>, tt: Tag) -> Option<OffArr> {
         for i in 0..=gc {
             offs.push(if long { *g.get(20 + i * 4..24 + i * 4).map(|c| u32::from_be_bytes([c[0], c[1], c[2], c[3]])).as_ref()? } else { g.get(20 + i * 2..22 + i * 2).map(|c| u16::from_be_bytes([c[0], c[1]]) as u32 * 2)? });
         }
-        Some(OffArr { offs, data: g.get(dao..)?.to_vec(), short: !long, shared: g.get(sto..sto + stc * axis * 2)?.to_vec() })
+        Some(OffArr { offs, data: g.get(dao..)?.to_vec(), short: !long, shared: g.get(sto..sto + stc * axis * 2)?.to_vec(), width: 0, prefix: vec![] })
     }
 }
 fn oracle_table_keyed(cx: &mut Ctx, base: &[u8], out: &CallOut, entries: &[TkEntry], expect_ok: Option<bool>, label: &str, term: &str) {
@@ -955,7 +1080,19 @@ fn run_gk_family(cx: &mut Ctx, rng: &mut Rng, sc: &GkScenario, contents: &[GkCon
             for (l, t) in &finals[1..] {
                 if t != t0 {
                     let term = format!("{} vs {} base={}", l0, l, c_tables(&font_tables(&base).unwrap()));
-                    fail(cx, "order-or-grouping-dependent", "gk.agree", &term, json!({"a": l0, "b": l}));
+                    // F-C18-4: same glyph data and logical offsets everywhere, only the offset WIDTH of a
+                    // CFF / CFF2 / gvar table differs (an intermediate call widened it; widths never shrink)
+                    let bt = tabmap(font_tables(&base).unwrap());
+                    let wd = width_only_difference(t, t0);
+                    let only_width = match &wd {
+                        Some(tags) => !tags.is_empty() && tags.iter().all(|tg| has_shrinking_patch(&bt, contents, *tg)),
+                        None => false,
+                    };
+                    if only_width {
+                        fail(cx, "F-C18-4", "gk.agree", &term, json!({"a": l0, "b": l, "tables": wd.as_ref().map(|v| v.iter().map(|t| t.to_string()).collect::<Vec<_>>())}));
+                    } else {
+                        fail(cx, "order-or-grouping-dependent", "gk.agree", &term, json!({"a": l0, "b": l}));
+                    }
                 }
             }
             cx.st.add("agree_comparisons", finals.len() as u64 - 1);
@@ -1300,6 +1437,179 @@ fn run_gvar_malformed(cx: &mut Ctx, rng: &mut Rng) {
     }
 }
 
+// ---------------------------------------------------------------- scenario: CFF / CFF2 charstrings
+fn cff_scenario(rng: &mut Rng, which: u8, n: usize, ng: usize, off_size: u8, big: bool) -> (GkScenario, Vec<Tag>) {
+    let mut tables = BTreeMap::new();
+    tables.insert(MAXP, maxp_table(ng as u16));
+    tables.insert(tag(b"tab1"), b"abcdef\n".to_vec());
+    let mut mk = |cff2: bool, rng: &mut Rng| {
+        let mut room = if off_size == 1 { 250usize } else { usize::MAX };
+        let glyphs: Vec<Vec<u8>> = (0..ng)
+            .map(|g| {
+                let l = if rng.chance(1, 4) { 0 } else if big { 30 + rng.below(40) as usize } else { rng.below(7) as usize };
+                let l = l.min(room);
+                room -= l;
+                (0..l).map(|i| 0x90u8.wrapping_add((g * 16 + i) as u8)).collect()
+            })
+            .collect();
+        cff_table(cff2, off_size, &glyphs)
+    };
+    let mut tags = vec![];
+    let (mut o1, mut o2) = (None, None);
+    if which != 1 {
+        let (t, cs) = mk(false, rng);
+        tables.insert(CFF, t);
+        o1 = Some(cs);
+        tags.push(CFF);
+    }
+    if which != 0 {
+        let (t, cs) = mk(true, rng);
+        tables.insert(CFF2, t);
+        o2 = Some(cs);
+        tags.push(CFF2);
+    }
+    let (ift, entries) = ift_table_cs(0, compat(1), 3, "foo", &vec![None; n], o1, o2);
+    tables.insert(IFT, ift);
+    (GkScenario { font: FontSpec { tables }, entries }, tags)
+}
+fn cff_contents(rng: &mut Rng, n: usize, ng: usize, tags: &[Tag], agree: bool, big: bool) -> Vec<GkContent> {
+    let global: Vec<Vec<u8>> = (0..ng).map(|g| {
+        let l = if big { rng.below(60) as usize } else { rng.below(6) as usize };
+        (0..l).map(|i| (0x11 * (g as u8 + 1)).wrapping_add(i as u8)).collect()
+    }).collect();
+    (0..n)
+        .map(|p| {
+            let mut gids: Vec<u32> = (0..ng as u32).filter(|_| rng.chance(2, 5)).collect();
+            if gids.is_empty() {
+                gids.push(rng.below(ng as u64) as u32);
+            }
+            let mut tables: Vec<Tag> = tags.iter().cloned().filter(|_| rng.chance(3, 4)).collect();
+            if tables.is_empty() {
+                tables.push(tags[0]);
+            }
+            let data = tables
+                .iter()
+                .map(|t| {
+                    gids.iter()
+                        .map(|g| {
+                            let mut d = if agree { global[*g as usize].clone() } else {
+                                let l = rng.below(6) as usize;
+                                (0..l).map(|i| (p * 16 + i) as u8).collect()
+                            };
+                            if *t == CFF2 {
+                                d.reverse();
+                            }
+                            d
+                        })
+                        .collect()
+                })
+                .collect();
+            GkContent { tables, gids, data, wide: false }
+        })
+        .collect()
+}
+fn run_cff_malformed(cx: &mut Ctx, rng: &mut Rng) {
+    let ng = 3 + rng.below(3) as usize;
+    let which = rng.below(2) as u8;
+    let tg = if which == 0 { CFF } else { CFF2 };
+    let cw = if which == 0 { 2 } else { 4 };
+    let off_size = 1 + rng.below(2) as u8;
+    let (mut sc, tags) = cff_scenario(rng, which, 1, ng, off_size, false);
+    let variant = rng.below(12);
+    let label = format!("cff.malformed.{}", variant);
+    let mut expect_ok: Option<bool> = Some(false);
+    let mut gids: Vec<u32> = (0..ng as u32).filter(|_| rng.chance(1, 2)).collect();
+    if gids.is_empty() {
+        gids.push(0);
+    }
+    let cs = {
+        let ift = &sc.font.tables[&IFT];
+        let tl = u16::from_be_bytes([ift[33], ift[34]]) as usize;
+        u32::from_be_bytes([ift[35 + tl], ift[36 + tl], ift[37 + tl], ift[38 + tl]]) as usize
+    };
+    match variant {
+        0 => {
+            // count differs from maxp
+            sc.font.tables.insert(MAXP, maxp_table(ng as u16 + 1));
+        }
+        1 => {
+            let t = sc.font.tables.get_mut(&tg).unwrap();
+            t[cs + cw] = *rng.pick(&[0u8, 5, 200]);
+            expect_ok = None;
+        }
+        2 => {
+            // charstrings offset beyond / at the end of the table
+            let l = sc.font.tables[&tg].len() as u32;
+            let ift = sc.font.tables.get_mut(&IFT).unwrap();
+            let tl = u16::from_be_bytes([ift[33], ift[34]]) as usize;
+            let v = l + *rng.pick(&[0u32, 1, 7]);
+            ift[35 + tl..39 + tl].copy_from_slice(&v.to_be_bytes());
+            expect_ok = None;
+        }
+        3 => {
+            // the mapping table does not carry the offset field
+            let (ift, entries) = ift_table(0, compat(1), 3, "foo", &[None]);
+            sc.font.tables.insert(IFT, ift);
+            sc.entries = entries;
+        }
+        4 => {
+            sc.font.tables.remove(&tg);
+        }
+        5 => {
+            // truncated inside the offsets / data
+            let t = sc.font.tables.get_mut(&tg).unwrap();
+            let nl = t.len().saturating_sub(1 + rng.below(6) as usize).max(cs + 1);
+            t.truncate(nl);
+            expect_ok = None;
+        }
+        6 => {
+            // interior offsets not ascending
+            let t = sc.font.tables.get_mut(&tg).unwrap();
+            let i = 1 + rng.below(ng as u64 - 1) as usize;
+            let k = cs + cw + 1 + i * off_size as usize + off_size as usize - 1;
+            t[k] = t[k].wrapping_add(60);
+            expect_ok = None;
+        }
+        7 => {
+            // the LAST offset smaller than the one before it
+            let t = sc.font.tables.get_mut(&tg).unwrap();
+            let k = cs + cw + 1 + ng * off_size as usize + off_size as usize - 1;
+            t[k] = 1;
+            expect_ok = None;
+        }
+        8 => {
+            // glyph beyond the maximum
+            gids.push(ng as u32 + rng.below(2) as u32);
+        }
+        9 => {
+            // trailing bytes after the charstrings data
+            sc.font.tables.get_mut(&tg).unwrap().extend_from_slice(&[0xEE; 5]);
+            expect_ok = None;
+        }
+        _ => {
+            expect_ok = Some(true);
+        }
+    }
+    let c = GkContent { tables: vec![tags[0]], gids: gids.clone(), data: vec![gids.iter().map(|g| vec![0x50 + *g as u8; rng.below(5) as usize]).collect()], wide: false };
+    let base = build_font(&sc.font);
+    let st: St = [(sc.entries[0].uri.clone(), Some(patch_for(&sc.entries[0], &c)))].into_iter().collect();
+    let Some(out) = run_call(&base, &sc.entries, &st, None, 0) else {
+        cx.st.count("select_failed_cff");
+        return;
+    };
+    let term = emit_case(cx, &base, &st, None, 0, &out, &label);
+    oracle_bookkeeping(cx, &st, &out, &label, &term);
+    if matches!(variant, 0 | 3 | 4 | 8 | 10 | 11) {
+        oracle_glyph_keyed(cx, &base, &out, &[(sc.entries[0].clone(), c)], expect_ok, &label, &term);
+    } else if let Ok(f) = &out.res {
+        if let Some(a) = font_tables(f).map(tabmap).and_then(|t| offset_array(&t, tg)) {
+            if a.offs.windows(2).any(|w| w[0] > w[1]) {
+                fail(cx, "offsets-not-ascending", &label, &term, json!({"offsets": a.offs}));
+            }
+        }
+    }
+}
+
 // ---------------------------------------------------------------- scenario: table keyed
 fn run_tk(cx: &mut Ctx, rng: &mut Rng, thorough: bool) {
     let mut tables: BTreeMap<Tag, Vec<u8>> = BTreeMap::new();
@@ -1582,6 +1892,88 @@ fn run_threshold(cx: &mut Ctx, rng: &mut Rng) {
     }
 }
 
+/// fixed instance of finding F-C18-4: CFF offSize 1, glyphs of 200 and 50 bytes; P1 shrinks glyph 0 to 10 bytes,
+/// P2 grows glyph 1 to 60 bytes.  One call (or P1 first): 70 bytes, offSize stays 1.  P2 first: 260 bytes -> offSize 2,
+/// and the later shrink never brings it back.
+fn run_width_grouping(cx: &mut Ctx) {
+    for cff2 in [false, true] {
+        let tg = if cff2 { CFF2 } else { CFF };
+        let glyphs = vec![vec![0xA1u8; 200], vec![0xB2u8; 50]];
+        let (tbl, cs) = cff_table(cff2, 1, &glyphs);
+        let mut tables = BTreeMap::new();
+        tables.insert(MAXP, maxp_table(2));
+        tables.insert(tg, tbl);
+        let (ift, entries) = ift_table_cs(0, compat(1), 3, "foo", &[None, None], if cff2 { None } else { Some(cs) }, if cff2 { Some(cs) } else { None });
+        tables.insert(IFT, ift);
+        let base = build_font(&FontSpec { tables });
+        let p1 = GkContent { tables: vec![tg], gids: vec![0], data: vec![vec![vec![0x11; 10]]], wide: false };
+        let p2 = GkContent { tables: vec![tg], gids: vec![1], data: vec![vec![vec![0x22; 60]]], wide: false };
+        let pd = |i: usize, c: &GkContent| (entries[i].uri.clone(), Some(patch_for(&entries[i], c)));
+        // one call
+        let st: St = [pd(0, &p1), pd(1, &p2)].into_iter().collect();
+        let Some(one) = run_call(&base, &entries, &st, None, 0) else { return };
+        let term = emit_case(cx, &base, &st, None, 0, &one, "width.one");
+        oracle_glyph_keyed(cx, &base, &one, &[(entries[0].clone(), p1.clone()), (entries[1].clone(), p2.clone())], Some(true), "width.one", &term);
+        // P2 first, then P1
+        let st1: St = [(entries[0].uri.clone(), None), pd(1, &p2)].into_iter().collect();
+        let Some(a) = run_call(&base, &entries, &st1, None, 0) else { return };
+        let term = emit_case(cx, &base, &st1, None, 0, &a, "width.two.a");
+        oracle_glyph_keyed(cx, &base, &a, &[(entries[1].clone(), p2.clone())], Some(true), "width.two.a", &term);
+        let Ok(fa) = &a.res else { return };
+        let st2: St = [pd(0, &p1)].into_iter().collect();
+        let Some(b) = run_call(fa, &entries, &st2, None, 0) else { return };
+        let term = emit_case(cx, fa, &st2, None, 0, &b, "width.two.b");
+        oracle_glyph_keyed(cx, fa, &b, &[(entries[0].clone(), p1.clone())], Some(true), "width.two.b", &term);
+        if let (Ok(f1), Ok(f2)) = (&one.res, &b.res) {
+            let (t1, t2) = (tabmap(font_tables(f1).unwrap()), tabmap(font_tables(f2).unwrap()));
+            if t1 != t2 {
+                let bt = tabmap(font_tables(&base).unwrap());
+                let same_glyphs = matches!(width_only_difference(&t2, &t1), Some(ref v) if v == &vec![tg])
+                    && has_shrinking_patch(&bt, &[p1.clone(), p2.clone()], tg);
+                let term = format!("width-grouping cff2={} one-call vs [P2],[P1]", cff2);
+                fail(cx, if same_glyphs { "F-C18-4" } else { "order-or-grouping-dependent" }, "width.grouping", &term, json!({"tables": [tg.to_string()]}));
+            }
+        }
+    }
+    // the gvar variant (short -> long offsets), oracle only: 131000 + 50 bytes; P1: glyph 0 -> 10 bytes, P2: glyph 1 -> 200 bytes
+    {
+        let glyphs = vec![vec![0xA1u8; 131000], vec![0xB2u8; 50]];
+        let mut tables = BTreeMap::new();
+        tables.insert(MAXP, maxp_table(2));
+        tables.insert(GVAR, gvar_table(false, 2, 1, &glyphs, false, 0));
+        let (ift, entries) = ift_table(0, compat(1), 3, "foo", &[None, None]);
+        tables.insert(IFT, ift);
+        let base = build_font(&FontSpec { tables });
+        let p1 = GkContent { tables: vec![GVAR], gids: vec![0], data: vec![vec![vec![0x11; 10]]], wide: false };
+        let p2 = GkContent { tables: vec![GVAR], gids: vec![1], data: vec![vec![vec![0x22; 200]]], wide: false };
+        let pd = |i: usize, c: &GkContent| (entries[i].uri.clone(), Some(patch_for(&entries[i], c)));
+        let st: St = [pd(0, &p1), pd(1, &p2)].into_iter().collect();
+        let st1: St = [(entries[0].uri.clone(), None), pd(1, &p2)].into_iter().collect();
+        let st2: St = [pd(0, &p1)].into_iter().collect();
+        if let (Some(one), Some(a)) = (run_call(&base, &entries, &st, None, 0), run_call(&base, &entries, &st1, None, 0)) {
+            cx.st.evaluations += 2;
+            if let (Ok(f1), Ok(fa)) = (&one.res, &a.res) {
+                if let Some(b) = run_call(fa, &entries, &st2, None, 0) {
+                    cx.st.evaluations += 1;
+                    if let Ok(f2) = &b.res {
+                        let (t1, t2) = (tabmap(font_tables(f1).unwrap()), tabmap(font_tables(f2).unwrap()));
+                        if t1 != t2 {
+                            let bt = tabmap(font_tables(&base).unwrap());
+                            let cls = matches!(width_only_difference(&t2, &t1), Some(ref v) if v == &vec![GVAR])
+                                && has_shrinking_patch(&bt, &[p1.clone(), p2.clone()], GVAR);
+                            fail(cx, if cls { "F-C18-4" } else { "order-or-grouping-dependent" }, "width.grouping", "width-grouping gvar one-call vs [P2],[P1]", json!({"tables": ["gvar"]}));
+                        }
+                    } else {
+                        fail(cx, "valid-patches-rejected", "width.grouping", "gvar [P2],[P1] second call", json!({"err": format!("{:?}", b.res.as_ref().err())}));
+                    }
+                }
+            } else {
+                fail(cx, "valid-patches-rejected", "width.grouping", "gvar width grouping", json!({}));
+            }
+        }
+    }
+}
+
 fn main() {
     silence_panics();
     let args: Vec<String> = std::env::args().collect();
@@ -1619,13 +2011,29 @@ fn main() {
         for _ in 0..if thorough { 3000 } else { 420 } {
             run_gk_malformed(&mut cx, &mut rng);
         }
-        for _ in 0..if thorough { 1500 } else { 260 } {
+        for _ in 0..if thorough { 1500 } else { 200 } {
             run_gvar_malformed(&mut cx, &mut rng);
+        }
+        for i in 0..if thorough { 60 } else { 9 } {
+            let which = (i % 3) as u8;
+            let n = 1 + (i % 3) as usize;
+            let ng = 3 + rng.below(3) as usize;
+            let big = i % 2 == 0;
+            let off_size = if big { 1 } else { 1 + rng.below(4) as u8 };
+            let (sc, tags) = cff_scenario(&mut rng, which, n, ng, off_size, big);
+            let agree = i % 4 != 3;
+            let contents = cff_contents(&mut rng, n, ng, &tags, agree, big);
+            cx.st.count("family.cff");
+            run_gk_family(&mut cx, &mut rng, &sc, &contents, agree, thorough);
+        }
+        for _ in 0..if thorough { 1200 } else { 160 } {
+            run_cff_malformed(&mut cx, &mut rng);
         }
         for _ in 0..if thorough { 2500 } else { 330 } {
             run_tk(&mut cx, &mut rng, thorough);
         }
         run_threshold(&mut cx, &mut rng);
+        run_width_grouping(&mut cx);
     }
     let shards = cw.finish();
     st.v.insert("shards".into(), shards.into());
